@@ -1,6 +1,670 @@
-//! C15 -- monitor (to be written)
-use crate::fw::ctx;
+//! C15 -- circuit adjoint inverts; basic-gate expansion and concatenation keep meaning;
+//! reversing twice restores; gate statistics partition the gates consistently.
+//!
+//! Events: for each generated unitary circuit c (harness type `Circ`, converted with
+//! `gen::circuit::to_quizx`), the REAL quizx operations `to_adjoint` / `adjoint`,
+//! `to_basic_gates`, `reverse`, the four `Add` impls and `+=`, and `stats` are executed;
+//! every result is converted back with `from_quizx` and judged with the gate-matrix
+//! simulator O3 (`oracle::sim`): exactly in Z[omega][1/2] when all phases are multiples
+//! of pi/4, with tolerance 1e-8 otherwise.
+//!
+//! Readings fixed here (where the property text leaves room):
+//! * "basic gate" = any gate kind other than CCZ / TOFF / ParityPhase acting on one or
+//!   two distinct in-range qubits (that is what `push_basic_gates` documents: "1 and 2
+//!   qubit Clifford + phase gates"; XCX and SWAP are pushed unchanged and are accepted).
+//! * "the advertised number of gates" = sum of `Gate::num_basic_gates()` over the gates.
+//! * Statistics: the hard requirements are the two partitions (oneq+twoq+moreq == total
+//!   == cliff+non_cliff), additivity over gates, arity classes by number of qubit
+//!   arguments, stability under `to_adjoint`, and: a gate that is NOT a Clifford unitary
+//!   (t, tdg, ccz, ccx, rz/rx/pp with a phase that is not a multiple of pi/2) must be
+//!   counted non-Clifford, and the elementary Clifford kinds (x, z, s, sdg, h, cx, cz,
+//!   swap, rz/rx with a multiple of pi/2) must be counted Clifford. Compound kinds that
+//!   happen to denote a Clifford unitary (xcx; pp with a multiple of pi/2) may be counted
+//!   either way -- quizx counts them non-Clifford, which is a consistent (syntactic)
+//!   partition; it is recorded in the evidence (`stats_note:*`), not flagged.
+//! * Concatenating circuits with different qubit counts is documented to panic for the
+//!   `Add` impls; it is exercised and counted, never flagged. `+=` has no such check in
+//!   the code; what it does on a mismatch is only recorded.
+
+use crate::fw::{ctx, guarded, par_cases, Caught};
+use crate::gen::circuit::{circ_hash, circ_json, from_quizx, gen_circuit, gen_ph, to_gate, to_quizx, CircParams, PhPool};
+use crate::gen::prng::Rng;
+use crate::oracle::eval::compose;
+use crate::oracle::ring::{Num, R};
+use crate::oracle::sim::{tensor_exact, tensor_float, Circ, Ph, G};
+use crate::snap::{Tens, FLOAT_TOL};
+use quizx::circuit::Circuit;
+use quizx::gate::GType;
+use serde_json::{json, Value};
+use std::sync::Arc;
+
+fn unitary(c: &Circ, exact: bool) -> Tens {
+    if exact {
+        Tens::Exact(tensor_exact(c).0)
+    } else {
+        Tens::Float(tensor_float(c).0)
+    }
+}
+
+fn identity(n: usize, exact: bool) -> Tens {
+    let d = 1usize << n;
+    if exact {
+        let mut v = vec![R::zero(); d * d];
+        for i in 0..d {
+            v[(i << n) | i] = R::one();
+        }
+        Tens::Exact(v)
+    } else {
+        let mut v = vec![<crate::oracle::ring::Cf as Num>::zero(); d * d];
+        for i in 0..d {
+            v[(i << n) | i] = <crate::oracle::ring::Cf as Num>::one();
+        }
+        Tens::Float(v)
+    }
+}
+
+fn compose_t(a: &Tens, b: &Tens, n: usize) -> Tens {
+    match (a, b) {
+        (Tens::Exact(x), Tens::Exact(y)) => Tens::Exact(compose(x, n, n, y, n, n)),
+        _ => Tens::Float(compose(&a.to_float(), n, n, &b.to_float(), n, n)),
+    }
+}
+
+fn is_compound(g: &G) -> bool {
+    matches!(g, G::Ccz(..) | G::Ccx(..) | G::Pp(..))
+}
+
+fn half_multiple(p: &Ph) -> bool {
+    2 % p.1 == 0
+}
+
+#[derive(Clone, Copy, PartialEq, Eq, Debug)]
+enum Class {
+    MustCliff,
+    MustNonCliff,
+    /// Clifford unitary written as a compound kind: either count is accepted
+    Either,
+}
+
+fn my_class(g: &G) -> Class {
+    match g {
+        G::X(_) | G::Z(_) | G::S(_) | G::Sdg(_) | G::H(_) | G::Cx(..) | G::Cz(..) | G::Swap(..) => Class::MustCliff,
+        G::Rz(_, p) | G::Rx(_, p) => {
+            if half_multiple(p) {
+                Class::MustCliff
+            } else {
+                Class::MustNonCliff
+            }
+        }
+        G::T(_) | G::Tdg(_) | G::Ccz(..) | G::Ccx(..) => Class::MustNonCliff,
+        G::Pp(_, p) => {
+            if half_multiple(p) {
+                Class::Either
+            } else {
+                Class::MustNonCliff
+            }
+        }
+        G::Xcx(..) => Class::Either,
+        // not generated here (unitary circuits only)
+        G::InitAnc(_) | G::PostSel(_) | G::MeasureD(..) | G::MeasureR(..) => Class::Either,
+    }
+}
+
+fn single(n: usize, g: &G) -> Circ {
+    Circ { n, gates: vec![g.clone()] }
+}
+
+fn push_all(mut a: Circuit, b: &Circuit) -> Circuit {
+    // harness-side concatenation that does not go through the `Add` impls under test
+    for g in b.gates.iter() {
+        a.push(g.clone());
+    }
+    a
+}
+
+fn kinds_of(gs: &[&G]) -> String {
+    let mut k: Vec<&str> = gs.iter().map(|g| g.name()).collect();
+    k.sort();
+    k.dedup();
+    if k.is_empty() {
+        "none(only-in-combination)".to_string()
+    } else {
+        k.join(",")
+    }
+}
+
+fn panic_violation(op: &str, e: &Caught, family: &'static str, index: u64, input: Value) -> bool {
+    let c = ctx();
+    match e {
+        Caught::Oracle(m) => {
+            c.inconclusive("oracle-error", json!({"op": op, "msg": m, "input": input}));
+        }
+        other => {
+            c.violation(&format!("{op}|panic|{}", other.site()), family, index, json!({"what": "panic", "op": op, "panic": other.text(), "input": input}));
+        }
+    }
+    false
+}
+
+/// adjoint clause on one circuit; returns true when it held
+fn adjoint_holds(hc: &Circ, exact: bool) -> Result<bool, Caught> {
+    let qc = to_quizx(hc);
+    let adj = guarded(|| qc.to_adjoint())?;
+    let cat = push_all(qc.clone(), &adj);
+    let hcat = match from_quizx(&cat) {
+        Ok(h) => h,
+        Err(_) => return Ok(false),
+    };
+    let ex = exact && hcat.is_pi4();
+    let u = guarded(|| unitary(&hcat, ex))?;
+    Ok(u.same(&identity(hc.n, ex), FLOAT_TOL))
+}
+
+/// expansion clause (unitary part) on one circuit
+fn expansion_holds(hc: &Circ, exact: bool) -> Result<bool, Caught> {
+    let qc = to_quizx(hc);
+    let b = guarded(|| qc.to_basic_gates())?;
+    let hb = match from_quizx(&b) {
+        Ok(h) => h,
+        Err(_) => return Ok(false),
+    };
+    let ex = exact && hb.is_pi4();
+    let u0 = guarded(|| unitary(hc, ex))?;
+    let u1 = guarded(|| unitary(&hb, ex))?;
+    Ok(u0.same(&u1, FLOAT_TOL))
+}
+
+fn check_circuit(family: &'static str, index: u64, hc: &Circ) {
+    let c = ctx();
+    let exact = hc.is_pi4();
+    let input = circ_json(hc);
+    let n = hc.n;
+    let qc = to_quizx(hc);
+    c.count(if exact { "pool:exact" } else { "pool:float" }, 1);
+    for g in &hc.gates {
+        c.count(&format!("gate:{}", g.name()), 1);
+        if let G::Pp(qs, _) = g {
+            c.count(&format!("pp_arity:{}", qs.len()), 1);
+        }
+    }
+    c.maximum("max_qubits", n as u64);
+    c.maximum("max_gates", hc.gates.len() as u64);
+
+    // ---- 1. adjoint ----------------------------------------------------------------
+    c.count("op:to_adjoint", 1);
+    match guarded(|| {
+        let a = qc.to_adjoint();
+        let mut b = qc.clone();
+        b.adjoint();
+        (a, b)
+    }) {
+        Err(e) => {
+            panic_violation("to_adjoint", &e, family, index, input.clone());
+        }
+        Ok((adj, adj_inplace)) => {
+            if adj != adj_inplace {
+                c.violation("adjoint|in-place-differs-from-to_adjoint", family, index, json!({"input": input, "to_adjoint": adj.to_string(), "adjoint": adj_inplace.to_string()}));
+            }
+            if adj.num_qubits() != n || adj.num_gates() != hc.gates.len() {
+                c.violation(
+                    "to_adjoint|shape-changed",
+                    family,
+                    index,
+                    json!({"input": input, "expected": {"qubits": n, "gates": hc.gates.len()}, "observed": {"qubits": adj.num_qubits(), "gates": adj.num_gates()}}),
+                );
+            } else {
+                match adjoint_holds(hc, exact) {
+                    Err(e) => {
+                        panic_violation("to_adjoint", &e, family, index, input.clone());
+                    }
+                    Ok(true) => {}
+                    Ok(false) => {
+                        // minimise: which single gates fail on their own?
+                        let bad: Vec<&G> = hc.gates.iter().filter(|g| matches!(adjoint_holds(&single(n, g), exact), Ok(false))).collect();
+                        c.violation(
+                            &format!("to_adjoint|not-inverse|kinds={}", kinds_of(&bad)),
+                            family,
+                            index,
+                            json!({"what": "U(c ; c.to_adjoint()) != identity", "input": input, "adjoint": adj.to_string(),
+                                   "failing_single_gates": bad.iter().map(|g| format!("{g:?}")).collect::<Vec<_>>(), "exact": exact}),
+                        );
+                    }
+                }
+            }
+        }
+    }
+
+    // ---- 2. basic-gate expansion ----------------------------------------------------
+    c.count("op:to_basic_gates", 1);
+    match guarded(|| qc.to_basic_gates()) {
+        Err(e) => {
+            panic_violation("to_basic_gates", &e, family, index, input.clone());
+        }
+        Ok(b) => {
+            let advertised: usize = qc.gates.iter().map(|g| g.num_basic_gates()).sum();
+            c.maximum("max_expanded_gates", b.num_gates() as u64);
+            if b.num_qubits() != n {
+                c.violation("to_basic_gates|qubit-count-changed", family, index, json!({"input": input, "expected": n, "observed": b.num_qubits()}));
+            }
+            if b.num_gates() != advertised {
+                let bad: Vec<&G> = hc
+                    .gates
+                    .iter()
+                    .filter(|g| {
+                        let q = to_quizx(&single(n, g));
+                        q.to_basic_gates().num_gates() != q.gates[0].num_basic_gates()
+                    })
+                    .collect();
+                c.violation(
+                    &format!("to_basic_gates|gate-count-not-as-advertised|kinds={}", kinds_of(&bad)),
+                    family,
+                    index,
+                    json!({"input": input, "expected_sum_num_basic_gates": advertised, "observed_num_gates": b.num_gates(), "expansion": b.to_string()}),
+                );
+            }
+            // all gates basic
+            for g in b.gates.iter() {
+                let arity_ok = g.t.num_qubits() == Some(g.qs.len()) && (g.qs.len() == 1 || g.qs.len() == 2);
+                let kind_ok = !matches!(
+                    g.t,
+                    GType::CCZ | GType::TOFF | GType::ParityPhase | GType::UnknownGate | GType::InitAncilla | GType::PostSelect | GType::Measure | GType::MeasureReset
+                );
+                let distinct = g.qs.len() < 2 || g.qs[0] != g.qs[1];
+                let in_range = g.qs.iter().all(|&q| q < n);
+                if !(arity_ok && kind_ok && distinct && in_range) {
+                    c.violation(
+                        &format!("to_basic_gates|non-basic-gate|{}", g.t.qasm_name()),
+                        family,
+                        index,
+                        json!({"input": input, "offending_gate": format!("{g:?}"), "expansion": b.to_string()}),
+                    );
+                    break;
+                }
+            }
+            // expansion of an already basic circuit is the circuit itself
+            match guarded(|| b.to_basic_gates()) {
+                Ok(bb) => {
+                    if bb != b {
+                        c.violation("to_basic_gates|not-idempotent", family, index, json!({"input": input, "once": b.to_string(), "twice": bb.to_string()}));
+                    }
+                }
+                Err(e) => {
+                    panic_violation("to_basic_gates", &e, family, index, input.clone());
+                }
+            }
+            match expansion_holds(hc, exact) {
+                Err(e) => {
+                    panic_violation("to_basic_gates", &e, family, index, input.clone());
+                }
+                Ok(true) => {}
+                Ok(false) => {
+                    let bad: Vec<&G> = hc.gates.iter().filter(|g| matches!(expansion_holds(&single(n, g), exact), Ok(false))).collect();
+                    c.violation(
+                        &format!("to_basic_gates|unitary-changed|kinds={}", kinds_of(&bad)),
+                        family,
+                        index,
+                        json!({"what": "U(to_basic_gates(c)) != U(c) (exact comparison, not up to phase)", "input": input, "expansion": b.to_string(),
+                               "failing_single_gates": bad.iter().map(|g| format!("{g:?}")).collect::<Vec<_>>(), "exact": exact}),
+                    );
+                }
+            }
+        }
+    }
+
+    // ---- 3. reverse -----------------------------------------------------------------
+    c.count("op:reverse", 1);
+    match guarded(|| {
+        let mut r1 = qc.clone();
+        r1.reverse();
+        let mut r2 = r1.clone();
+        r2.reverse();
+        (r1, r2)
+    }) {
+        Err(e) => {
+            panic_violation("reverse", &e, family, index, input.clone());
+        }
+        Ok((r1, r2)) => {
+            if r2 != qc {
+                c.violation("reverse|twice-does-not-restore", family, index, json!({"input": input, "observed": r2.to_string()}));
+            }
+            let mut expect: Vec<quizx::gate::Gate> = hc.gates.iter().map(to_gate).collect();
+            expect.reverse();
+            let got: Vec<quizx::gate::Gate> = r1.gates.iter().cloned().collect();
+            if got != expect || r1.num_qubits() != n {
+                c.violation("reverse|once-is-not-the-reversed-gate-list", family, index, json!({"input": input, "observed": r1.to_string()}));
+            }
+        }
+    }
+
+    // ---- 4. statistics --------------------------------------------------------------
+    c.count("op:stats", 1);
+    match guarded(|| (qc.stats(), qc.to_adjoint().stats())) {
+        Err(e) => {
+            panic_violation("stats", &e, family, index, input.clone());
+        }
+        Ok((s, sa)) => {
+            let arr = json!({"qubits": s.qubits, "total": s.total, "oneq": s.oneq, "twoq": s.twoq, "moreq": s.moreq, "cliff": s.cliff, "non_cliff": s.non_cliff});
+            if s.qubits != n || s.total != hc.gates.len() || s.oneq + s.twoq + s.moreq != s.total || s.cliff + s.non_cliff != s.total {
+                c.violation("stats|partition-sums", family, index, json!({"input": input, "observed": arr, "expected": {"qubits": n, "total": hc.gates.len()}}));
+            }
+            if s != sa {
+                c.violation("stats|changes-under-to_adjoint", family, index, json!({"input": input, "stats": arr, "stats_of_adjoint": format!("{sa:?}")}));
+            }
+            // per gate: observed class = statistics of the one-gate circuit
+            let (mut o1, mut o2, mut o3, mut sum_cl, mut sum_ncl) = (0usize, 0usize, 0usize, 0usize, 0usize);
+            for g in &hc.gates {
+                let sg = to_quizx(&single(n, g)).stats();
+                match g.qubits().len() {
+                    1 => o1 += 1,
+                    2 => o2 += 1,
+                    _ => o3 += 1,
+                }
+                sum_cl += sg.cliff;
+                sum_ncl += sg.non_cliff;
+                let counted_cliff = sg.cliff == 1 && sg.non_cliff == 0;
+                let counted_non = sg.cliff == 0 && sg.non_cliff == 1;
+                if !(counted_cliff || counted_non) {
+                    c.violation(&format!("stats|single-gate-not-in-exactly-one-class|{}", g.name()), family, index, json!({"gate": format!("{g:?}"), "stats": format!("{sg:?}")}));
+                    continue;
+                }
+                match (my_class(g), counted_cliff) {
+                    (Class::MustCliff, false) => c.violation(
+                        &format!("stats|clifford-gate-counted-non-clifford|{}", g.name()),
+                        family,
+                        index,
+                        json!({"gate": format!("{g:?}"), "expected": "cliff", "observed": "non_cliff", "input": input}),
+                    ),
+                    (Class::MustNonCliff, true) => c.violation(
+                        &format!("stats|non-clifford-gate-counted-clifford|{}", g.name()),
+                        family,
+                        index,
+                        json!({"gate": format!("{g:?}"), "expected": "non_cliff", "observed": "cliff", "input": input}),
+                    ),
+                    (Class::Either, cl) => c.count(&format!("stats_note:clifford-unitary-compound-kind:{}:counted-{}", g.name(), if cl { "cliff" } else { "non_cliff" }), 1),
+                    (Class::MustCliff, true) => c.count("stats:cliff-confirmed", 1),
+                    (Class::MustNonCliff, false) => c.count("stats:non_cliff-confirmed", 1),
+                }
+            }
+            if (s.oneq, s.twoq, s.moreq) != (o1, o2, o3) {
+                c.violation("stats|arity-classes", family, index, json!({"input": input, "observed": arr, "expected": {"oneq": o1, "twoq": o2, "moreq": o3}}));
+            }
+            if (s.cliff, s.non_cliff) != (sum_cl, sum_ncl) {
+                c.violation(
+                    "stats|not-additive-over-gates",
+                    family,
+                    index,
+                    json!({"input": input, "observed": arr, "expected_from_single_gate_circuits": {"cliff": sum_cl, "non_cliff": sum_ncl}}),
+                );
+            }
+        }
+    }
+
+    let nontrivial = hc.gates.len() >= 3 || hc.gates.iter().any(is_compound);
+    c.case(family, if nontrivial { Some(circ_hash(hc)) } else { None });
+    c.sample_n(4, || json!({"family": family, "index": index, "circuit": input, "exact": exact}));
+}
+
+const ADD_IMPLS: [&str; 5] = ["Circuit+Circuit", "Circuit+&Circuit", "&Circuit+Circuit", "&Circuit+&Circuit", "Circuit+=&Circuit"];
+
+fn apply_add(which: usize, a: &Circuit, b: &Circuit) -> (Circuit, Circuit, Circuit) {
+    // returns (result, left operand afterwards, right operand afterwards) -- for the
+    // borrowing impls the operands must be unchanged
+    let (l, r) = (a.clone(), b.clone());
+    match which {
+        0 => (l.clone() + r.clone(), l, r),
+        1 => {
+            let res = l.clone() + &r;
+            (res, l, r)
+        }
+        2 => {
+            let res = &l + r.clone();
+            (res, l, r)
+        }
+        3 => {
+            let res = &l + &r;
+            (res, l, r)
+        }
+        _ => {
+            let mut t = l.clone();
+            t += &r;
+            (t, l, r)
+        }
+    }
+}
+
+fn check_concat(family: &'static str, index: u64, h1: &Circ, h2: &Circ) {
+    let c = ctx();
+    let n = h1.n;
+    assert_eq!(n, h2.n);
+    let input = json!({"c1": circ_json(h1), "c2": circ_json(h2)});
+    let exact = h1.is_pi4() && h2.is_pi4();
+    let (q1, q2) = (to_quizx(h1), to_quizx(h2));
+    let u1 = unitary(h1, exact);
+    let u2 = unitary(h2, exact);
+    // U(c1 + c2) = U(c2) * U(c1): first c1, then c2
+    let expect_u = compose_t(&u1, &u2, n);
+    let mut expect_gates = h1.gates.clone();
+    expect_gates.extend(h2.gates.iter().cloned());
+    let mut results: Vec<Circuit> = vec![];
+    for (w, name) in ADD_IMPLS.iter().enumerate() {
+        c.count(&format!("add:{name}"), 1);
+        match guarded(|| apply_add(w, &q1, &q2)) {
+            Err(e) => {
+                panic_violation(&format!("add:{name}"), &e, family, index, input.clone());
+            }
+            Ok((res, l, r)) => {
+                if l != q1 || r != q2 {
+                    c.violation(&format!("add:{name}|operand-modified"), family, index, json!({"input": input}));
+                }
+                match from_quizx(&res) {
+                    Err(m) => c.violation(&format!("add:{name}|result-not-a-circuit"), family, index, json!({"input": input, "why": m, "observed": res.to_string()})),
+                    Ok(hr) => {
+                        if hr.n != n || hr.gates != expect_gates {
+                            c.violation(
+                                &format!("add:{name}|gate-list-is-not-c1-then-c2"),
+                                family,
+                                index,
+                                json!({"input": input, "observed": circ_json(&hr)}),
+                            );
+                        }
+                        let ex = exact && hr.is_pi4();
+                        match guarded(|| unitary(&hr, ex)) {
+                            Ok(u) => {
+                                if !u.same(&expect_u, FLOAT_TOL) {
+                                    c.violation(
+                                        &format!("add:{name}|map-is-not-U(c2)*U(c1)"),
+                                        family,
+                                        index,
+                                        json!({"input": input, "observed": circ_json(&hr), "expected_map": expect_u.brief(), "observed_map": u.brief()}),
+                                    );
+                                }
+                            }
+                            Err(e) => {
+                                panic_violation(&format!("add:{name}"), &e, family, index, input.clone());
+                            }
+                        }
+                    }
+                }
+                results.push(res);
+            }
+        }
+    }
+    if results.windows(2).any(|w| w[0] != w[1]) {
+        c.violation("add|impls-disagree", family, index, json!({"input": input, "results": results.iter().map(|r| r.to_string()).collect::<Vec<_>>()}));
+    }
+    let nontrivial = !h1.gates.is_empty() && !h2.gates.is_empty();
+    c.case(family, if nontrivial { Some(circ_hash(h1) ^ circ_hash(h2).rotate_left(1)) } else { None });
+    c.sample_n(6, || json!({"family": family, "index": index, "pair": input}));
+}
+
+/// Different qubit counts: documented to panic for the `Add` impls. Counted only.
+fn check_mismatch(family: &'static str, h1: &Circ, h2: &Circ) {
+    let c = ctx();
+    let (q1, q2) = (to_quizx(h1), to_quizx(h2));
+    for (w, name) in ADD_IMPLS.iter().enumerate() {
+        match guarded(|| apply_add(w, &q1, &q2)) {
+            Err(Caught::Panic { msg, .. }) => {
+                if msg.contains("different numbers of qubits") {
+                    c.count(&format!("mismatch:{name}:documented-panic"), 1);
+                } else {
+                    c.count(&format!("mismatch:{name}:other-panic"), 1);
+                }
+            }
+            Err(_) => c.count(&format!("mismatch:{name}:other"), 1),
+            Ok((res, _, _)) => {
+                c.count(&format!("mismatch:{name}:no-panic(result-has-{}-qubits)", if res.num_qubits() == h1.n { "left" } else { "other" }), 1);
+            }
+        }
+    }
+    c.case(family, None);
+}
+
+// --------------------------------------------------------------------------------------
+// generators specific to this property
+// --------------------------------------------------------------------------------------
+
+fn ordered_tuples(n: usize, k: usize) -> Vec<Vec<usize>> {
+    fn rec(n: usize, k: usize, cur: &mut Vec<usize>, out: &mut Vec<Vec<usize>>) {
+        if cur.len() == k {
+            out.push(cur.clone());
+            return;
+        }
+        for q in 0..n {
+            if !cur.contains(&q) {
+                cur.push(q);
+                rec(n, k, cur, out);
+                cur.pop();
+            }
+        }
+    }
+    let mut out = vec![];
+    rec(n, k, &mut vec![], &mut out);
+    out
+}
+
+fn norm_ph(num: i64, den: i64) -> Ph {
+    let p = crate::gen::circuit::ph_to_phase((num, den)).to_rational();
+    (*p.numer(), *p.denom())
+}
+
+/// every gate kind x every ordered tuple of distinct qubits x a phase list, on n qubits
+fn single_gate_space(n: usize) -> Vec<Circ> {
+    let mut phases: Vec<Ph> = (-3..=4).map(|k| norm_ph(k, 4)).collect();
+    phases.extend([norm_ph(1, 3), norm_ph(-2, 5), norm_ph(7, 8), norm_ph(-1, 16), norm_ph(5, 12)]);
+    let mut gs: Vec<G> = vec![];
+    for q in 0..n {
+        gs.extend([G::X(q), G::Z(q), G::S(q), G::T(q), G::Sdg(q), G::Tdg(q), G::H(q)]);
+        for p in &phases {
+            gs.push(G::Rz(q, *p));
+            gs.push(G::Rx(q, *p));
+        }
+    }
+    for t in ordered_tuples(n, 2) {
+        gs.extend([G::Cx(t[0], t[1]), G::Cz(t[0], t[1]), G::Xcx(t[0], t[1]), G::Swap(t[0], t[1])]);
+    }
+    for t in ordered_tuples(n, 3) {
+        gs.push(G::Ccz(t[0], t[1], t[2]));
+        gs.push(G::Ccx(t[0], t[1], t[2]));
+    }
+    for k in 1..=n {
+        for t in ordered_tuples(n, k) {
+            for p in &phases {
+                gs.push(G::Pp(t.clone(), *p));
+            }
+        }
+    }
+    gs.into_iter().map(|g| Circ { n, gates: vec![g] }).collect()
+}
+
+/// circuits dominated by compound gates: ccz / ccx in all argument orders, pp of every arity
+fn gen_compound_heavy(r: &mut Rng, max_q: usize, max_d: usize) -> Circ {
+    let n = 1 + r.below(max_q);
+    let depth = 1 + r.below(max_d);
+    let pool = if r.chance(0.6) { PhPool::Exact } else { PhPool::Float };
+    let mut gates = vec![];
+    for _ in 0..depth {
+        let mut qs: Vec<usize> = (0..n).collect();
+        r.shuffle(&mut qs);
+        let g = match r.below(10) {
+            0..=2 if n >= 3 => G::Ccz(qs[0], qs[1], qs[2]),
+            3..=5 if n >= 3 => G::Ccx(qs[0], qs[1], qs[2]),
+            6 => G::H(qs[0]),
+            7 if n >= 2 => G::Cx(qs[0], qs[1]),
+            8 => G::T(qs[0]),
+            _ => {
+                let w = 1 + r.below(n);
+                qs.truncate(w);
+                G::Pp(qs, gen_ph(r, pool))
+            }
+        };
+        gates.push(g);
+    }
+    Circ { n, gates }
+}
 
 pub fn run() {
-    ctx().harness_error("C15 monitor not implemented yet");
+    let c = ctx();
+    let t = c.tier;
+    c.set_rule(
+        "cases = unitary circuits (families: random exact / float pools, compound-heavy, single-gate exhaustive) each put through to_adjoint/adjoint, to_basic_gates, reverse x2, stats; plus circuit pairs through the four Add impls and +=. A single circuit is non-trivial when it has >= 3 gates or contains ccz/ccx/pp; a pair when both operands are non-empty; distinct = distinct circuit (pair) descriptions (64-bit hash)",
+    );
+    c.assume("gate-matrix simulator O3 (harness/src/oracle/sim.rs) and exact ring O1 are correct (self-tested at start)");
+    c.assume("conversion harness circuit <-> quizx circuit (gen::circuit::{to_quizx, from_quizx}) is a faithful one-to-one mapping of gate kinds, qubit arguments and phases");
+    c.assume("'advertised number of basic gates' is read as the sum of Gate::num_basic_gates(); 'basic' = not CCZ/TOFF/ParityPhase, one or two distinct in-range qubits");
+
+    let (nq, nd, n_rand) = t.pick((5usize, 30usize, 700usize), (6usize, 60usize, 60_000usize));
+    par_cases("unitary-exact", n_rand, move |r, i| {
+        let hc = gen_circuit(r, &CircParams::unitary(nq, nd, PhPool::Exact));
+        check_circuit("unitary-exact", i, &hc);
+    });
+    par_cases("unitary-float", n_rand / 2, move |r, i| {
+        let hc = gen_circuit(r, &CircParams::unitary(nq, nd, PhPool::Float));
+        check_circuit("unitary-float", i, &hc);
+    });
+    let (cq, cd) = t.pick((5usize, 10usize), (7usize, 16usize));
+    par_cases("compound-heavy", n_rand / 2, move |r, i| {
+        let hc = gen_compound_heavy(r, cq, cd);
+        check_circuit("compound-heavy", i, &hc);
+    });
+
+    // exhaustive single gates: every kind x every ordered qubit tuple x phase list
+    let max_n = t.pick(4usize, 5usize);
+    let mut space: Vec<Circ> = vec![];
+    for n in 1..=max_n {
+        space.extend(single_gate_space(n));
+    }
+    let total = space.len();
+    let space = Arc::new(space);
+    let sp = space.clone();
+    par_cases("single-gate-exhaustive", total, move |_r, i| {
+        check_circuit("single-gate-exhaustive", i, &sp[i as usize]);
+    });
+    c.extra("single_gate_exhaustive", json!({"max_qubits": max_n, "space": total, "completed": !c.out_of_time()}));
+
+    // concatenation
+    let (pq, pd, n_pairs) = t.pick((4usize, 16usize, 500usize), (5usize, 30usize, 40_000usize));
+    par_cases("concat-pairs", n_pairs, move |r, i| {
+        let pool = if r.chance(0.7) { PhPool::Exact } else { PhPool::Float };
+        let n = 1 + r.below(pq);
+        let mut p = CircParams::unitary(n, pd, pool);
+        p.min_qubits = n;
+        let h1 = gen_circuit(r, &p);
+        let h2 = if r.chance(0.1) { Circ { n, gates: vec![] } } else { gen_circuit(r, &p) };
+        check_concat("concat-pairs", i, &h1, &h2);
+    });
+    par_cases("concat-qubit-mismatch", t.pick(40, 400), move |r, _i| {
+        let n1 = 1 + r.below(4);
+        let mut n2 = 1 + r.below(4);
+        if n2 == n1 {
+            n2 += 1;
+        }
+        let mut p1 = CircParams::unitary(n1, 6, PhPool::Exact);
+        p1.min_qubits = n1;
+        let mut p2 = CircParams::unitary(n2, 6, PhPool::Exact);
+        p2.min_qubits = n2;
+        let h1 = gen_circuit(r, &p1);
+        let h2 = gen_circuit(r, &p2);
+        check_mismatch("concat-qubit-mismatch", &h1, &h2);
+    });
+    c.extra("exhaustive", json!(false));
 }
